@@ -67,11 +67,21 @@ class Sched(object):
         th["blocked_on"] = None
         self.log.append((tid,) + tuple(th["label"]))
         th["sem"].release()
-        self.back.acquire()
+        # the thread runs to its next yield point.  If it does not get there it waits for something outside the tables
+        # and thread operations the scheduler controls (a lock another - paused - thread holds): with one thread
+        # running at a time nobody will ever release it, the call blocks forever
+        if not self.back.acquire(timeout=STUCK_AFTER):
+            raise Stuck(tid)
 
 
 S = None
 URLKEY = {}
+VERS = {}                 # resource name -> how often the caller has changed it at its source ("touch")
+STUCK_AFTER = 20.0        # seconds of real time without reaching a yield point (a step normally takes milliseconds)
+
+
+class Stuck(Exception):
+    pass
 
 
 def key(url):
@@ -142,6 +152,9 @@ PROGS = {
     "lC_rC_lC_lC": [("load", "C"), ("refresh", "C"), ("load", "C"), ("load", "C")],
     "dB_rA_lB_lA": [("deferred_load", "B"), ("refresh", "A"), ("load", "B"), ("load", "A")],
     "lD_dD_lD_lD": [("load", "D"), ("deferred_load", "D"), ("load", "D"), ("load", "D")],
+    # touch: the resource changes at its source (the caller does that between two calls); a refresh has to see it
+    "lA_tC_rA_lA": [("load", "A"), ("touch", "C"), ("refresh", "A"), ("load", "A")],
+    "dA_tB_rA_lA_lB": [("deferred_load", "A"), ("touch", "B"), ("refresh", "A"), ("load", "A"), ("load", "B")],
 }
 REFRESH_PROGS = [p for p, ops in PROGS.items() if any(o == "refresh" for o, _ in ops)]
 
@@ -154,12 +167,12 @@ def parsable(graph, x):
     return not (graph == "badleaf" and x == "C")
 
 
-def resource_text(graph, x, urls, old=False):
+def resource_text(graph, x, urls, old=False, ver=0):
     if graph == "headeronly" and x == "D":
         return '<?xml version="1.0" encoding="UTF-8"?>\n<odML version="1.1"><author>%snobody</author></odML>' % ("OLD" if old else "")
     if not parsable(graph, x):
         return '<odML version="1.1"><section><name>sec%s</name>' % x
-    body = '<property><name>%sp%s</name><value>%s</value><type>string</type></property>' % ("OLD" if old else "", x, x)
+    body = '<property><name>%sp%s%s</name><value>%s</value><type>string</type></property>' % ("OLD" if old else "", x, "v%d" % ver if ver else "", x)
     for y in GRAPHS[graph][x]:
         body += '<section><name>inc%s</name><type>t</type><include>%s#/sec%s</include></section>' % (y, urls[y], y)
     return '<?xml version="1.0" encoding="UTF-8"?>\n<odML version="1.1"><section><name>sec%s</name><type>t</type>%s</section></odML>' % (x, body)
@@ -205,7 +218,9 @@ def cache_facts(graph, urls, tmp):
             out[x] = "absent"
             continue
         data = open(cp).read()
-        out[x] = "current" if data == resource_text(graph, x, urls) else "old" if data == resource_text(graph, x, urls, old=True) else "other"
+        cur = VERS.get(x, 0)
+        out[x] = ("current" if data == resource_text(graph, x, urls, ver=cur) else "old" if data == resource_text(graph, x, urls, old=True)
+                  else "outdated" if any(data == resource_text(graph, x, urls, ver=v) for v in range(cur)) else "other")
     return out
 
 
@@ -222,11 +237,32 @@ def expected_sig(graph, x):
     return json.dumps({"secs": [dict(name="sec" + x, **content(x))]}, sort_keys=True)
 
 
+def _pname(n):
+    import re
+    return re.sub(r"v\d+$", "", n)
+
+
+def seen_versions(doc):
+    """resource name -> version of its text found in the document (property names 'p<X>' / 'p<X>v<n>')"""
+    import re
+    out = {}
+    if doc is None:
+        return out
+    try:
+        for p in doc.iterproperties():
+            m = re.match(r"^p([A-D])(?:v(\d+))?$", p.name)
+            if m and m.group(1) not in out:
+                out[m.group(1)] = int(m.group(2) or 0)
+    except Exception:
+        pass
+    return out
+
+
 def actual_sig(doc):
     if doc is None:
         return "none"
     def sec(s):
-        return {"name": s.name, "props": [p.name for p in s.properties], "secs": [sec(c) for c in s.sections]}
+        return {"name": s.name, "props": [_pname(p.name) for p in s.properties], "secs": [sec(c) for c in s.sections]}
     try:
         return json.dumps({"secs": [sec(s) for s in doc.sections]}, sort_keys=True)
     except Exception as e:
@@ -237,6 +273,7 @@ def _run(graph, prog, schedule, workdir, variant="terminology", cache="empty"):
     """one execution under `schedule` (list of thread ids; where it gives no usable choice the
     running thread continues, else the lowest enabled one).  Returns a dict."""
     global S, URLKEY
+    VERS.clear()
     S = Sched()
     d = C.fresh_dir(workdir)
     res_dir = os.path.join(d, "res"); os.makedirs(res_dir)
@@ -272,16 +309,25 @@ def _run(graph, prog, schedule, workdir, variant="terminology", cache="empty"):
     def main():
         for op, x in PROGS[prog]:
             try:
+                if op == "touch":
+                    S.yield_point(("touch", x, 0))
+                    if fetchable(graph, x):
+                        VERS[x] = VERS.get(x, 0) + 1
+                        open(os.path.join(res_dir, x + ".xml"), "w").write(resource_text(graph, x, urls, ver=VERS[x]))
+                    results.append({"op": op, "url": x, "res": "ok", "sig": "-", "obj": "-", "vers": {}, "cur": {}})
+                    continue
                 r = getattr(api, op)(urls[x])
+                seen = seen_versions(r) if op == "load" else {}
                 results.append({"op": op, "url": x, "res": "ok", "sig": actual_sig(r) if op == "load" else "-",
-                                "obj": "none" if r is None else "o%d" % id(r)})
+                                "obj": "none" if r is None else "o%d" % id(r),
+                                "vers": seen, "cur": {y: VERS.get(y, 0) for y in seen}})
             except BaseException as e:
-                results.append({"op": op, "url": x, "res": "raised:" + type(e).__name__, "sig": "-", "obj": "-"})
+                results.append({"op": op, "url": x, "res": "raised:" + type(e).__name__, "sig": "-", "obj": "-", "vers": {}, "cur": {}})
                 raise
 
     tid = S.new_tid(); S.register(tid); S.threads[tid]["state"] = "running"
     real_threading.Thread(target=S.body, args=(tid, main), daemon=True).start()
-    i, cur, choices = 0, 0, []
+    i, cur, choices, stuck = 0, 0, [], False
     devnull = io.StringIO()
     old = sys.stdout, sys.stderr
     sys.stdout = sys.stderr = devnull
@@ -299,18 +345,24 @@ def _run(graph, prog, schedule, workdir, variant="terminology", cache="empty"):
             choices.append((choice, list(en)))
             i += 1
             cur = choice
-            S.step(choice)
+            try:
+                S.step(choice)
+            except Stuck:
+                stuck = True
+                break
             if i > 5000:
                 break
     finally:
         sys.stdout, sys.stderr = old
         tempfile.tempdir = None
     unfinished = [t for t, th in S.threads.items() if th["state"] == "running"]
+    if stuck:
+        unfinished = unfinished or [cur]
     cache_after = cache_facts(graph, urls, tmp)
     cached = [x for x in urls if cache_after[x] != "absent"]
     errs = {str(t): ("none" if th["exc"] is None else type(th["exc"]).__name__) for t, th in S.threads.items()}
     return {"results": results, "errs": errs, "log": S.log, "choices": choices, "deadlock": bool(unfinished),
-            "cached": sorted(cached), "steps": i, "cache_before": cache_before, "cache_after": cache_after}
+            "cached": sorted(cached), "steps": i, "cache_before": cache_before, "cache_after": cache_after, "stuck": stuck}
 
 
 def run(graph, prog, schedule, workdir, variant="terminology", cache="empty"):
